@@ -58,6 +58,67 @@ theorem transfer_correct_libs_compared (cfg : Cfg M) (hex : cfg.exclLibs = false
     Correct cfg w o (transfer cfg w o now size).2 :=
   (transfer_spec o now size .done hlaw h0 hm (by simp [hex])).1
 
+/-- Full statement of the property for the code variant that compares `library_folders`
+    (`exclLibs = false`): the library clause of `Admissible` is vacuous (any `L` will do), so
+    only the hypotheses of the property text remain — edits later than the cache, `mtime_check`
+    on — and every transfer of every such history, with any option changes including the
+    library folders, returns the compile of the current sources. -/
+theorem transfer_correct_full_if_libs_compared (cfg : Cfg M) (hex : cfg.exclLibs = false)
+    (hlaw : Lawful cfg) (L L' : List Folder) (hist : List Op) (w : World M)
+    (h0 : FreshInv cfg L' w) (hadm : Admissible cfg L w hist) : AllCorrect cfg w hist := by
+  have hany : ∀ (hist : List Op) (w : World M), Admissible cfg L w hist → Admissible cfg L' w hist := by
+    intro hist
+    induction hist with
+    | nil => intro _ _; trivial
+    | cons op rest ih =>
+      intro w hadm
+      refine ⟨?_, ih _ hadm.2⟩
+      have hok := hadm.1
+      cases op with
+      | write f p t c => exact hok
+      | setVersion v => trivial
+      | transfer o now size => exact ⟨hok.1, by simp [hex]⟩
+      | crashedTransfer o now size i => exact ⟨hok.1, by simp [hex]⟩
+      | truncate k t => trivial
+  exact (history_spec hlaw hist w h0 (hany hist w hadm)).1
+
+/-- Modification times are compared with the cache file's only — there is no wall clock in
+    `load_model`: a source file newer than the cache, by any amount and however far in the
+    future, is never served from the cache (seed C20-3: an upper bound `<= time.time()`). -/
+theorem newer_file_is_never_served (cfg : Cfg M) (w : World M) (o : Opts) (c : CacheFile M)
+    (hc : w.cache = some c) (hm : o.mtimeCheck = true) (f : Folder) (hf : f ∈ folders o)
+    (x : SrcFile) (hx : x ∈ w.fs f) (hnew : c.mtime < x.mtime) :
+    load cfg w o = .miss .outOfDate := by
+  have hst : (folders o).any (fun f => stale c (w.fs f)) = true := by
+    rw [List.any_eq_true]
+    refine ⟨f, hf, ?_⟩
+    simp only [stale, List.any_eq_true, decide_eq_true_eq]
+    exact ⟨x, hx, hnew⟩
+  unfold load
+  simp [hc, hm, hst]
+
+/-- An option change in *any* key — the rest list holds every key that is passed, default or
+    not (seed C20-4: `iterative_simplification` going from absent to `True`) — makes the call
+    recompile, and the result is the compile under the new options. -/
+theorem changed_option_is_recompiled (cfg : Cfg M) (hlaw : Lawful cfg) (w : World M) (o : Opts) (now size : Nat) (c : CacheFile M) (hc : w.cache = some c)
+    (hdiff : c.db.opts.rest ≠ o.norm.rest) (hcg : (o.norm.cache || o.norm.codegen) = true) :
+    ∃ r, (transfer cfg w o now size).2 = .compiled (compileNow cfg w o.norm) r := by
+  unfold transfer
+  simp only [hcg, Bool.not_true]
+  cases hload : load cfg w o.norm with
+  | hit m =>
+    obtain ⟨c', hc', _, _, _, hopts, _⟩ := load_hit hload
+    rw [hc] at hc'
+    cases hc'
+    simp only [optsMatch, Bool.and_eq_true, beq_iff_eq] at hopts
+    exact absurd hopts.2 hdiff
+  | raised e =>
+    obtain ⟨n, hn⟩ := load_raised hload
+    have := hlaw n
+    rw [hn] at this
+    cases this
+  | miss r => exact ⟨r, rfl⟩
+
 section examples
 /-- a compile function that keeps everything it is given -/
 abbrev Src := Nat × List (List (String × Nat)) × Opts
@@ -88,6 +149,10 @@ example : (run (exCfg true) exW exHist).2.map Outcome.kind =
     ["compiled:no-file", "hit", "compiled:out-of-date", "compiled:options", "compiled:version",
      "compiled:out-of-date"] := by
   decide
+-- a file stamped far in the future is newer than the cache; a non-default key changes `rest`
+def exFuture : World Src :=
+  ⟨fun _ => [⟨"M.mo", 2200000000000, 1⟩], some ⟨5, ⟨1, exOpts [] "False", (1, [], exOpts [] "False")⟩, 10, 10⟩, 1⟩
+example : (match load (exCfg true) exFuture (exOpts [] "False") with | .miss r => r.name | _ => "") = "out-of-date" := by decide
 end examples
 
 /-- The hypothesis on `library_folders` cannot be dropped for the code as it is
